@@ -306,4 +306,27 @@ def memoryStoreShape : Bool :=
   followedBy memLock [memUnlockDeferred] memSaveFlow && chain [memLock, setSubscriptions] memSaveFlow &&
   followedBy memRLock [memRUnlockDeferred] memLoadFlow
 
+/-- a start callback of the OpenTelemetry adapter: one span started, THE counter incremented once, both unconditionally
+(outside every branch), and the only `return` is the last statement (no early return can skip the counter) -/
+def otelStartOf (counter : Nat) (l : List Nat) : Bool :=
+  chain [tracerStart, counter] l && count tracerStart l == 1 && count counter l == 1 &&
+  topLevelUpTo tracerStart 0 l && topLevelUpTo counter 0 l &&
+  (l.filter (fun t => returns.contains t)).length == 1 && (l.getLast?.any (fun t => returns.contains t))
+
+/-- a complete callback: the span is the one carried by the context, it is ended exactly once, unconditionally, as the
+last statement, on every path (no `return`); the error counter is incremented exactly under `err != nil` -/
+def otelCompleteOf (errCounter : Option Nat) (l : List Nat) : Bool :=
+  (idxs spanFromContext l).head? == some 0 && count spanEnd l == 1 && topLevelUpTo spanEnd 0 l &&
+  l.getLast? == some spanEnd && noReturn l &&
+  (match errCounter with
+   | none => true
+   | some c => count c l == 1 && inside c ifErr l && inside recordError ifErr l &&
+               (annotate l).all (fun a => a.tok != c || a.stack == [ifErr]))
+
+def otelShape : Bool :=
+  otelStartOf publishCounterAdd otelPublishStartFlow && otelStartOf handlerCounterAdd otelHandlerStartFlow &&
+  otelStartOf persistCounterAdd otelPersistStartFlow &&
+  otelCompleteOf none otelPublishCompleteFlow && otelCompleteOf (some handlerErrorsAdd) otelHandlerCompleteFlow &&
+  otelCompleteOf (some persistErrorsAdd) otelPersistCompleteFlow
+
 end Ebu.Flow
